@@ -274,6 +274,9 @@ impl PlainYearMonth {
         // 9. Let overflow be ? GetTemporalOverflowOption(resolvedOptions).
         // 10. Let isoDate be ? CalendarYearMonthFromFields(calendar, fields, overflow).
         // 11. Return ! CreateTemporalYearMonth(isoDate, calendar).
+        if partial.is_empty() {
+            return Err(TemporalError::r#type().with_message("A PartialDate must have a field."));
+        }
         self.calendar.year_month_from_partial(
             &partial.with_fallback_year_month(self)?,
             overflow.unwrap_or(ArithmeticOverflow::Constrain),
